@@ -489,6 +489,31 @@ def run_wrappers(ctx, alg, A, d):
                      where=f"vocab-special-{name}-{alg}")
         elif st == "ok" and not (p.vocab is vocab and p.algebra is A and name in vocab and len(vocab) == 0):
             ctx.fail(case, "vocab/algebra/len", "pointer of this vocabulary, nothing added", where=f"vocab-special-attrs-{alg}")
+        # every other public way to the same name agrees with vocab[name]: same vector, same refusal, same flag
+        from nengo_spa.ast.symbolic import PointerSymbol
+        from nengo_spa.types import TVocabulary
+        for via, fn in (("parse", lambda: vocab.parse(name)), ("parse_n", lambda: vocab.parse_n(name)[0]),
+                        ("symbol", lambda: PointerSymbol(name, TVocabulary(vocab)).evaluate()),
+                        ("sym-attr", lambda: vocab.parse(getattr(spa.sym, name).expr))):
+            st2, p2, dep2 = call(fn)
+            ctx.count(f"vocabname {alg} {d} {name} {via}", branch=f"vocab-name-{name}-{via}-{st2}")
+            if outcome_key(st2, None if p2 is None else p2.v, dep2) != outcome_key(*ref):
+                ctx.fail(dict(case, via=via), [st2, dep2, None if p2 is None else [float(x) for x in p2.v][:8]],
+                         [ref[0], ref[2], None if ref[1] is None else [float(x) for x in ref[1]][:8]],
+                         where=f"vocab-special-{name}-{alg}")
+    # the two-sided inverse through the vocabulary's text interface agrees with the algebra (value and flag)
+    vocab2 = spa.Vocabulary(d, algebra=A, strict=True, pointer_gen=np.random.RandomState(3))
+    vocab2.populate("A")
+    refi = call(A.invert, vocab2["A"].v, sidedness=ES.TWO_SIDED)
+    for via, fn in (("operator", lambda: ~vocab2["A"]), ("parse", lambda: vocab2.parse("~A")),
+                    ("populate", lambda: (vocab2.populate("B%d = ~A" % len(vocab2)), vocab2["B%d" % (len(vocab2) - 1)])[1])):
+        st2, p2, dep2 = call(fn)
+        case = {"op": "vocab-inverse", "alg": alg, "d": d, "via": via}
+        ctx.count(f"vocabinv {alg} {d} {via}", branch=f"vocab-inverse-{via}-{st2}")
+        if outcome_key(st2, None if p2 is None else p2.v, dep2) != outcome_key(*refi):
+            ctx.fail(case, [st2, dep2, None if p2 is None else [float(x) for x in p2.v][:8]],
+                     [refi[0], refi[2], None if refi[1] is None else [float(x) for x in refi[1]][:8]],
+                     where=f"vocab-inverse-{alg}")
 
 
 def run_malformed(ctx, nd):
